@@ -30,7 +30,9 @@ ASSUME = ["reference renderer/recogniser (harness/refmodel.py) transcribe the RE
 CAL_PARTS = ["YYYY", "YY", "0Y", "GGGG", "GG", "0G", "Q", "MM", "0M", "DD", "0D", "JJJ", "00J", "WW", "0W", "UU", "0U", "VV", "0V"]
 TWO_DIGIT = {"YY", "0Y", "GG", "0G"}
 MULTI = ["YYYY.MM.DD", "YYYY0M0D", "YYYY.0M.0D", "YYYY-JJJ", "YYYY00J", "YYYY.WW", "YYYYw0W", "YYYY.UU", "YYYY0U",
-         "GGGG.VV", "GGGGw0V", "YY.MM.DD", "0Y0M0D", "YYYY.Q", "GG0V", "0Y.JJJ"]
+         "GGGG.VV", "GGGGw0V", "YY.MM.DD", "0Y0M0D", "YYYY.Q", "GG0V", "0Y.JJJ",
+         # the year after another numeric part or a literal digit
+         "0D0MYYYY", "DD.MM.YYYY", "00JYYYY", "0VGGGG", "r7YYYY.MM", "0M0Y"]
 _BASE = None
 
 
@@ -397,7 +399,7 @@ PARTS = [
 ]
 
 MANIFEST = {
-    "text": "Exhaustive round trip of every calendar date in range through every calendar part and 16 date patterns, "
+    "text": "Exhaustive round trip of every calendar date in range through every calendar part and 22 date patterns (year first, year last, glued, after a literal digit), "
             "plus generated (pattern, reachable state, bump) cases whose rendering - taken before the CLI gate - must "
             "be accepted, read back part-wise (bumpver's reader vs an independent recogniser) and re-render "
             "byte-identically; plus a CLI chain (test->test, update->show).",
